@@ -129,7 +129,17 @@ func (e *Env) eval(x Expr) (TV, error) {
 		return TV{ite(c, a.T, b.T), typ}, nil
 	case *EQuant:
 		v := quote("q:" + x.Var)
-		env := e.with(map[string]TV{x.Var: {Term{v, SInt}, tInt}})
+		qsort, qtyp := SInt, types.Type(tInt)
+		if x.Typ != "" {
+			nerr := len(vc.errs)
+			t, s := vc.lemmaParamType(e, x.Typ)
+			if len(vc.errs) > nerr || t == nil {
+				vc.errs = vc.errs[:nerr]
+				return TV{}, fmt.Errorf("quantifier over unknown type %s", x.Typ)
+			}
+			qsort, qtyp = s, t
+		}
+		env := e.with(map[string]TV{x.Var: {Term{v, qsort}, qtyp}})
 		env.bound = true
 		body, err := env.evalBool(x.Body)
 		if err != nil {
@@ -148,9 +158,9 @@ func (e *Env) eval(x Expr) (TV, error) {
 			rng = and(le(lo.T, Term{v, SInt}), lt(Term{v, SInt}, hi.T))
 		}
 		if x.Forall {
-			return TV{T(SBool, "(forall ((%s Int)) %s)", v, implies(rng, body).S), tBool}, nil
+			return TV{T(SBool, "(forall ((%s %s)) %s)", v, qsort, implies(rng, body).S), tBool}, nil
 		}
-		return TV{T(SBool, "(exists ((%s Int)) %s)", v, and(rng, body).S), tBool}, nil
+		return TV{T(SBool, "(exists ((%s %s)) %s)", v, qsort, and(rng, body).S), tBool}, nil
 	case *EField:
 		return e.field(x)
 	case *EIndex:
@@ -741,6 +751,31 @@ func (e *Env) call(x *ECall) (TV, error) {
 		}
 		mh := vc.heap(e.st, mapHasName(m.Typ), arraySort(SInt, arraySort(vc.sortOf(mt.Key()), SBool)))
 		return TV{sel(sel(mh, m.T), k.T), tBool}, nil
+	case "visited":
+		// visited(k): key k of the map ranged over by the current loop has
+		// already been produced by the iteration (loop invariants of
+		// "for ... range m" loops over maps only). The iteration yields every
+		// key of the map exactly once: a key is produced only if it is in the
+		// map and not yet visited, and the loop ends only when every key of
+		// the map has been visited.
+		if len(x.Args) != 1 {
+			return TV{}, fmt.Errorf("visited takes one argument")
+		}
+		if e.fr == nil || e.fr.curRange == nil {
+			return TV{}, fmt.Errorf("visited() is only available in invariants of a loop that ranges over a map")
+		}
+		cell, ok := e.cellState().cells[rangeKey{e.fr.curRange}]
+		if !ok {
+			return TV{}, fmt.Errorf("visited(): the range iterator is not live here")
+		}
+		k, err := e.eval(x.Args[0])
+		if err != nil {
+			return TV{}, err
+		}
+		if !strings.HasPrefix(string(cell.Sort), "(Array "+string(k.T.Sort)+" ") {
+			return TV{}, fmt.Errorf("visited(%s): key has sort %s, the visited set has sort %s", exprString(x.Args[0]), k.T.Sort, cell.Sort)
+		}
+		return TV{sel(cell, k.T), tBool}, nil
 	case "fresh":
 		// fresh(x): x was allocated during the call/loop (not below the old watermark)
 		v, err := e.eval(x.Args[0])
